@@ -118,6 +118,9 @@ func runOwn(o *opts) {
 			name := names[(perm+k*5)%len(names)]
 			// multi-output stages now and then: add a harmless second output
 			outs := []Art{a.art()}
+			if r.chance(1, 3) {
+				outs[0].Skip = true // ownership does not depend on whether the output is cached
+			}
 			stg := mkStageGo(nil, outs, "")
 			allNames = append(allNames, name)
 			allStages = append(allStages, outs)
@@ -159,6 +162,9 @@ func runOwn(o *opts) {
 		id++
 		idx := make(index.Index)
 		two := []Art{t.a.art(), t.b.art()}
+		if r.chance(1, 4) {
+			two[r.intn(2)].Skip = true
+		}
 		sort.Slice(two, func(i, j int) bool { return two[i].Path < two[j].Path })
 		one := []Art{t.c.art()}
 		seqv := [][]Art{two, one}
